@@ -609,6 +609,76 @@ theorem mathFn_rule (f : MathFn) (a : Desc) (r : Res) (h : mathFn f a = some (.o
                 simp at hd
                 simp [hd])))
 
+/-! ### in-place forms -/
+
+/-- the condition under which the code rebinds a single Python value (recorded defect KF-C04-10) -/
+def singleInt (a : Desc) : Bool := a.shape == [] && a.rank == 0 && a.kind == .int
+
+-- FULL: the same statement with `(a.kind = .int → r.kind ≠ .float)` for EVERY target; false on the unrepaired tree for
+-- single-valued integer targets (`inplace_counterexample`, KF-C04-10).
+/-- **inplace_eq_direct (partial).** Whenever `a op= b` is accepted, the direct form `a op b` is accepted too, with the
+    SAME plan (so every `value_ref` theorem applies), the result has the direct form's shapes and the target's class;
+    and unless the target is a single-valued integer (KF-C04-10) the operand broadcasts INTO the target (result leading
+    shape = target leading shape), the item shape is the target's and an integer target never ends up holding floats. -/
+theorem rebindsSingle_singleInt (op : OpSym) (a b : Desc) (h : rebindsSingle op a b = true) : singleInt a = true := by
+  unfold rebindsSingle at h
+  simp only [Bool.and_eq_true] at h
+  simp only [singleInt, Bool.and_eq_true]
+  exact ⟨⟨h.1.1.1.1.1.1, h.1.1.1.1.1.2⟩, h.1.1.1.1.2⟩
+
+theorem inplace_eq_direct_partial (op : OpSym) (a b : Desc) (zn : Bool) (r : Res)
+    (h : inplace op a b zn = some (.ok r)) :
+    ∃ r0, dispatch op a b zn = some (.ok r0) ∧ r.lead = r0.lead ∧ r.numer = r0.numer ∧ r.denom = r0.denom ∧
+      r.cls = a.cls ∧ r.plan = r0.plan ∧ a.cls ≠ .boolean ∧
+      (singleInt a = false → r.lead = a.shape ∧ r.numer = a.numer ∧ r.denom = a.denom ∧
+        (a.kind = .int → r.kind ≠ .float)) := by
+  unfold inplace at h
+  cases hd : dispatch op a b zn with
+  | none => rw [hd] at h; cases h
+  | some x =>
+    cases x with
+    | error e => rw [hd] at h; simp at h
+    | ok r0 =>
+      rw [hd] at h
+      simp only [] at h
+      by_cases hR : (rebindsSingle op a b && a.cls != .boolean) = true
+      · rw [if_pos hR] at h
+        simp only [Option.some.injEq, Except.ok.injEq] at h
+        subst h
+        simp only [Bool.and_eq_true, bne_iff_ne, ne_eq] at hR
+        refine ⟨r0, rfl, rfl, rfl, rfl, rfl, rfl, hR.2, ?_⟩
+        intro hsi
+        rw [rebindsSingle_singleInt op a b hR.1] at hsi
+        cases hsi
+      · rw [if_neg hR] at h
+        by_cases hS : (storable a r0 && !inplaceLimited op a b zn) = true
+        · rw [if_pos hS] at h
+          simp only [Option.some.injEq, Except.ok.injEq] at h
+          subst h
+          simp only [storable, Bool.and_eq_true, beq_iff_eq, Bool.not_eq_true', bne_iff_ne, ne_eq] at hS
+          obtain ⟨⟨⟨⟨⟨h1, h2⟩, h3⟩, h4⟩, h5⟩, _⟩ := hS
+          refine ⟨r0, rfl, rfl, rfl, rfl, rfl, rfl, h5, ?_⟩
+          intro _
+          refine ⟨h1, h2, h3, ?_⟩
+          intro hk hf
+          have e : (Kind.int == Kind.float) = false := by decide
+          simp only [hk, e, Bool.false_eq_true, if_false] at hf
+          simp [hk, hf] at h4
+        · rw [if_neg hS] at h
+          simp at h
+
+/-- **inplace_counterexample** (KF-C04-10, replayed on the real code: `a = Scalar(3); a += 0.5` gives `Scalar(3.5)`):
+    an integer target holding a single value accepts a float number and ends up float. -/
+theorem inplace_counterexample :
+    ∃ r, inplace .add ⟨.qube, .scalar, .int, [], [], [], none⟩ ⟨.num, .qube, .float, [], [], [], none⟩ = some (.ok r) ∧
+      r.kind = .float :=
+  ⟨_, rfl, rfl⟩
+
+/-- an in-place form is never accepted when the direct form is rejected -/
+theorem inplace_rejects (op : OpSym) (a b : Desc) (zn : Bool) (e : Rej)
+    (h : dispatch op a b zn = some (.error e)) : inplace op a b zn = some (.error e) := by
+  simp [inplace, h]
+
 /-! ### the whole operator table: dispatch = specification -/
 
 /-- **dispatch_spec.** For every operator, every ordered pair of well-formed operands (polymath object of any class,
